@@ -482,7 +482,8 @@ pub fn run(rep: &mut Report) {
         with the two guards of C12_unique_partial met in about half of the cases; the report is also written with \
         output_covdir; non-trivial = two inputs have the same lexical normal form (same file, different spelling)"
         .to_string();
-    let mut rng = Rng::new(rep.seed ^ 0xC12);
+    // corrlib's Rng::new is linear in the seed (seed+2 is the same stream two draws later): hash it first
+    let mut rng = Rng::new(fnv64(&(rep.seed ^ 0xC12).to_le_bytes()));
     witness(rep);
     stream(rep, &mut rng);
     rep.notes.push("in-process only (add_results, rewrite_paths, output_covdir); the CLI is not driven here. Java/Kotlin keys, markers and symlinks are outside the generated domain; keys that denote a directory are not written with output_covdir (it panics on an empty path: not this property)".into());
